@@ -54,6 +54,7 @@ MUTANTS: Dict[str, List[M]] = {
         ("enum serialised on the parse path", "_typehints.py", "        if serialize:\n            if isinstance(val, typehint):\n                val = val.name", "        if not serialize:\n            if isinstance(val, typehint):\n                val = val.name", "C01.e"),
     ],
     "C02": [
+        ("root type without an arm", "_typehints.py", "    abc.Sequence,\n    abc.MutableSequence,\n}\nmapping_origin_types", "    abc.Sequence,\n}\nmapping_origin_types", "C02.e"),
         ("Union returns vals[-1] again", "_typehints.py", "val = next(v for v in reversed(vals) if not isinstance(v, Exception))", "val = vals[-1]", "C02.a"),
         ("Union returns vals[0]", "_typehints.py", "val = next(v for v in reversed(vals) if not isinstance(v, Exception))", "val = vals[0]", "C02.a"),
         ("List arm writes in place", "_typehints.py", "        if subtypehints is not None:\n            val = list(val)\n            for n, v in enumerate(val):", "        if subtypehints is not None:\n            for n, v in enumerate(val):", "C02.b"),
@@ -89,6 +90,7 @@ MUTANTS: Dict[str, List[M]] = {
         ("jsonschema argv path skips the checker", "_jsonschema.py", "        val = self._check_type(args[2])\n        if not self._with_meta:", "        val = args[2]\n        if not self._with_meta:", "C05.a"),
     ],
     "C06": [
+        ("moved parser's required keys use the raw option name", "_actions.py", 'required_args = {dest + "." + x for x in subparser.required_args}', 'required_args = {prefix + "." + x for x in subparser.required_args}', "C06.d"),
         ("unknown subcommand names rejected only when required", "_actions.py", "            if subcommand not in action._name_parser_map:", "            if action._required and subcommand not in action._name_parser_map:", "C06.d"),
         ("known key skipped for any falsy value", "_core.py", "if (val is None and skip_none) or lenient_check.get():", "if (not val and skip_none) or lenient_check.get():", "C06.a"),
         ("meta keys skipped silently", "_core.py", "                    if _is_branch_key(self, key):\n                        continue", "                    if _is_branch_key(self, key) or is_meta_key(key):\n                        continue", "C06.a"),
@@ -184,6 +186,8 @@ MUTANTS: Dict[str, List[M]] = {
         ("check_overwrite ignores existing files", "_core.py", "            if not overwrite and os.path.isfile(path.absolute):\n                raise ValueError", "            if not overwrite and os.path.isdir(path.absolute):\n                raise ValueError", "C18.b"),
     ],
     "C19": [
+        ("config file merged outside its directory", "_actions.py", "            with change_to_path_dir(cfg_path):  # 'key+' appends of the file are adapted while merging\n                cfg_merged = parser.merge_config(cfg_file, cfg)", "            cfg_merged = parser.merge_config(cfg_file, cfg)", "C19.c"),
+        ("original text re-interpreted inside the file's directory", "_typehints.py", "                        if isinstance(orig_val, str):\n                            val = adapt_typehints(orig_val, self._typehint, default=self.default, **kwargs)", "                        if isinstance(orig_val, str):\n                            with change_to_path_dir(config_path):\n                                val = adapt_typehints(orig_val, self._typehint, default=self.default, **kwargs)", "C19.c"),
         ("R tests W_OK", "_util.py", 'if "R" in mode and os.access(abs_path, os.R_OK):', 'if "R" in mode and os.access(abs_path, os.W_OK):', "C19.b"),
         ("os.stat for F unguarded", "_util.py", '            if "F" in mode and (\n                os.path.isfile(abs_path)\n                or (os.access(abs_path, os.F_OK) and stat.S_ISFIFO(os.stat(abs_path).st_mode))\n            ):', '            if "F" in mode and (os.path.isfile(abs_path) or stat.S_ISFIFO(os.stat(abs_path).st_mode)):', "C19.a"),
         ("default config loaded outside its directory", "_core.py", "            with change_to_path_dir(default_config_file), parser_context(parent_parser=self):\n                cfg_file = self._load_config_parser_mode(default_config_file.get_content(), key=key)", "            cfg_file = self._load_config_parser_mode(default_config_file.get_content(), key=key)\n            with change_to_path_dir(default_config_file), parser_context(parent_parser=self):", "C19.c"),
